@@ -186,6 +186,7 @@ class Exec:
         self.deadline = None
         self.global_init = {}
         self.on_call = {}
+        self.on_return = {}
         self.trace_slow = bool(__import__('os').environ.get('SYMX_TRACE_SLOW'))
         self.fresh_cache = {}
         self.use_portfolio = True
@@ -1287,6 +1288,8 @@ class Exec:
     # ------------------------------------------------------------------ calls
     def do_return(self, st, vals):
         fr = st.frames.pop()
+        hook = self.on_return.get(fr.fn['name'])
+        if hook is not None: hook(self, st, vals)
         rv = vals[0] if len(vals) == 1 else tuple(vals)
         if not st.frames:
             st.status = 'returned'; st.result = vals; return None
